@@ -462,6 +462,7 @@ func checkC20(c *Check) {
 	// ---- R5 only validated manifests (validity = hash equals the latest recorded version, stand-alone and cross validation)
 	c.manifestVersionRule("R5")
 	c.onlyValidatedRecorded("R5")
+	c.managerInboxBlocking("R5")
 }
 
 // leaseClosedRouting: the manifest service hands every lease-closed event of this provider to the deployment's manager
@@ -521,6 +522,25 @@ func (c *Check) leaseClosedRouting(rule string) {
 		}
 	}
 	c.Ob(rule, "manifest service: lease-closed events are filtered by the lease's provider being this provider", rm.Pos(), okProv, "the event is not compared with this provider's address: closed leases of this provider are ignored (or foreign ones acted on)")
+	// ... and removeLease really hands it over: the send to the manager's loop may be abandoned only for shutdown, never
+	// because the loop is busy right now (a select with a default case drops the removal)
+	if g := rm.Common().StaticCallee(); g != nil && g.Blocks != nil {
+		eachInstrDeep(g, func(i ssa.Instruction) {
+			sel, isSel := i.(*ssa.Select)
+			if !isSel {
+				return
+			}
+			sends := false
+			for _, st := range sel.States {
+				if st.Dir == types.SendOnly {
+					sends = true
+				}
+			}
+			if sends {
+				c.Ob(rule, "manager.removeLease waits until the manager's loop has taken the removal (or shutdown)", sel.Pos(), sel.Blocking, "the select that hands the closed lease to the manager's loop has a default case: while the loop is busy the removal is dropped and the manager keeps accepting manifests for a closed lease")
+			}
+		})
+	}
 	c.Ob(rule, "manifest service: every lease-closed event of this provider with a manager reaches manager.removeLease", rm.Pos(), okMgr && extra == "", "removeLease is skipped under an extra condition ("+extra+"): the manager keeps a closed lease and goes on accepting and announcing manifests for it")
 }
 
@@ -571,7 +591,7 @@ func (c *Check) onlyValidatedRecorded(rule string) {
 				if st, ok := i.(*ssa.Store); ok && nrm(Sym(st.Addr)) == "&p:m.manifests" {
 					nm++
 					v := nrm(Sym(st.Val))
-					c.Ob(rule, "validated-manifest list written in "+fn.Name(), st.Pos(), fn == vr && strings.HasPrefix(v, "builtin.append(p:m.manifests, [") && strings.Contains(v, ".value.Manifest"), short(v))
+					c.Ob(rule, "validated-manifest list written in "+fn.Name(), st.Pos(), inCodeOf(vr, fn) && strings.HasPrefix(v, "builtin.append(p:m.manifests, [") && strings.Contains(v, ".value.Manifest"), short(v))
 				}
 			})
 		}
@@ -673,4 +693,41 @@ func (c *Check) announcesLatestManifest(rule string) {
 	}
 	ev := nrm(Sym(pub.Call.Args[len(pub.Call.Args)-1]))
 	c.Ob(rule, "the manifest announced to the deployment manager is the one validated last", pub.Pos(), strings.Contains(ev, "Manifest: p:m.manifests[(builtin.len(p:m.manifests) - 1)]"), "the event carries "+short(ev)+": after an update the deployment manager is handed an older manifest and deploys it")
+}
+
+// managerInboxBlocking: the manifest service hands lease, version-update, removal and manifest events to a
+// deployment's manager through the manager's handle* / removeLease methods. Each of them sends to the manager's loop
+// in a select whose only other way out is shutdown: with a default case the event is dropped whenever the loop is
+// busy (validating, waiting for the hostname check), and the manager goes on with a superseded version / a closed lease.
+func (c *Check) managerInboxBlocking(rule string) {
+	l := c.L
+	n := 0
+	for _, fn := range l.pkgFuncs("provider/manifest") {
+		if fn.Signature.Recv() == nil || !strings.HasSuffix(fn.Signature.Recv().Type().String(), "manifest.manager") {
+			continue
+		}
+		if fn.Name() == "run" || fn.Parent() != nil {
+			continue
+		}
+		eachInstr(fn, func(i ssa.Instruction) {
+			sel, isSel := i.(*ssa.Select)
+			if !isSel {
+				return
+			}
+			sends := ""
+			for _, st := range sel.States {
+				if st.Dir == types.SendOnly {
+					sends = short(strings.ReplaceAll(Sym(st.Chan), "*", ""))
+				}
+			}
+			if sends == "" {
+				return
+			}
+			n++
+			c.Ob(rule, "manager."+fn.Name()+" waits until the manager's loop has taken the event (or shutdown)", sel.Pos(), sel.Blocking, "the select that sends on "+sends+" has a default case: while the manager's loop is busy the event is dropped")
+		})
+	}
+	if n < 3 {
+		c.Fail("%s-%s lost instances: %d inbox sends of the manifest manager", c.ID, rule, n)
+	}
 }
